@@ -117,14 +117,14 @@ func (c *c11Cast) run(cfg c11Cfg, hist []int) (out c10Run) {
 				}
 			}
 		}
-		for _, e := range hist {
+		step := func(e int) (abort bool) {
 			name := c11Events[e]
 			switch {
 			case strings.HasPrefix(name, "set("):
 				s := strings.TrimSuffix(strings.TrimPrefix(name, "set("), ")")
 				if s == state {
 					out.key = ""
-					return
+					return true
 				}
 				state = s
 				if s == "down" {
@@ -178,7 +178,7 @@ func (c *c11Cast) run(cfg c11Cfg, hist []int) (out c10Run) {
 			case name == "bgfetch-completes":
 				if vsched.HeldCount("IsRevoked") == 0 {
 					out.key = ""
-					return
+					return true
 				}
 				vsched.ReleaseSite("IsRevoked")
 				if pendingBg > 0 {
@@ -201,12 +201,25 @@ func (c *c11Cast) run(cfg c11Cfg, hist []int) (out c10Run) {
 			if c11AfterEvent != nil && len(vsched.Held()) == 0 {
 				c11AfterEvent(dir, name)
 			}
+					return false
+		}
+		for _, e := range hist {
+			if step(e) {
+				return
+			}
 		}
 		var ents []string
 		for _, e := range w.Repo().VerifEntries() {
 			ents = append(ents, fmt.Sprintf("%v/%v/%s", e.Loaded, e.LastUpdateSignatureVerifyFailed, storeDigest(e.Store)))
 		}
 		out.key = fmt.Sprintf("srv=%s ref=%v/%v/%v/%d disk=%v/%v impl=%v dir=%s held=%d", state, known, loaded, keysOf(inForce), pendingBg, diskHas, keysOf(diskList), ents, dirDigest(dir), len(vsched.Held()))
+		// final observation (after the key was taken): every history, also one which is merged into a state seen before,
+		// ends with all probes judged - state the reference does not know about (a cache filled by earlier lookups) would
+		// otherwise disappear with the merged history
+		if n := len(hist); n > 0 && c11Events[hist[n-1]] != "probe-all" {
+			out.trace = append(out.trace, "final:")
+			step(6)
+		}
 		vsched.ReleaseAll()
 		w.Chk.Cleanup()
 	})
